@@ -26,6 +26,27 @@ CLAIMED = {
         "(from the statement of C19), NumPy primitives allocate O(result).",
    technique="selection contract on the dispatch layer decided by exhaustive enumeration; effect contracts on rule bodies",
    engine="TAB"),
+ "C06": dict(
+   category="proof",
+   text="Every @dispatch rule of inv (read from the live plum table) is executed as the real function object over abstract operator "
+        "factors with callees replaced by their contracts, and must meet the generic contract M(r) = M(A)^-1, shape, dtype on every "
+        "feasible path; discharged by z3 (E-matching over the lemma library), z3 CLI and cvc5 taking the unknowns. Universal in shapes, payloads and "
+        "nesting depth (the recursive call is the induction hypothesis); enumerated in arity (<=3 quick / <=4 thorough), dtype class and annotation set.",
+   design_ref="4.6",
+   note="Iterative paths: IterativeOperatorWInfo is given its idealised meaning A^-1 (residual contracts are C12/C13's); LAPACK lu/cholesky/"
+        "solve_triangular are dependency contracts; exact arithmetic (no backward-stability claim); lemma library partly ASSUMED (listed in evidence).",
+   technique="contract-stubbed proxy execution of the real rule bodies; VCs over an abstract linear-algebra theory discharged by z3/cvc5",
+   engine="ALG"),
+ "C07": dict(
+   category="proof",
+   text="Every rule of slogdet must return (phase of det, log|det|) of the represented matrix, expressed with the ghost pair (sgn, ld) and the "
+        "homomorphism lemmas (det_mul, n-ary det_kronecker, det_blockDiagonal with multiplicities, det_diagonal, det(cI)=c^n, det_permutation); "
+        "rule bodies run as real code over abstract factors; symbolic multiplicities and factor sizes.",
+   design_ref="4.7",
+   note="exp/log never appear in VCs; permutation_sign's loop body is only covered by a bounded stand-in (all permutations n<=6/8); the Krylov base "
+        "rule is a listed known finding; products of reals are uninterpreted (rm) with commutativity only.",
+   technique="contract-stubbed proxy execution; ghost (phase, log-magnitude) of det with homomorphism lemmas; z3/cvc5",
+   engine="ALG"),
 }
 
 NOT_YET = "check not built yet in this session (framework under construction; see DESIGN.md section 10 for the order of work)"
